@@ -121,8 +121,16 @@ def to_text(cmds, style):
     if style.get("macro"):
         used = [s[1] for c in cmds if c[0] != "L" for s in c[1:] if s[0] == "r"]
         if used:
-            macros[used[0]] = "$mq"
-            lines.append("# DEFINE mq " + used[0])
+            distinct = list(dict.fromkeys(used))
+            if style.get("macro") == "overlap" and len(distinct) >= 2:
+                # two macros, one name a prefix of the other, the longer one defined first (substitution is in definition order)
+                macros[distinct[0]] = "$mq1"
+                macros[distinct[1]] = "$mq"
+                lines.append("# DEFINE mq1 " + distinct[0])
+                lines.append("# DEFINE mq " + distinct[1])
+            else:
+                macros[used[0]] = "$mq"
+                lines.append("# DEFINE mq " + used[0])
     if style.get("comments"):
         lines.append("// a comment line")
     for c in cmds:
@@ -415,7 +423,8 @@ def forms():
     F.append(("qfree", [[("k", None), ("r", "Q0")]]))
     F.append(("ret_reg", [[("r", "R0"), ("r", "M2")]]))
     F.append(("ret_arr", [[("addr", 0)]]))
-    F.append(("wait_all", [[("slice", 0, ("k", None), ("k", None)), ("slice", 0, ("r", "R0"), ("k", None)), ("slice", 0, ("k", None), ("r", "R1"))]]))
+    F.append(("wait_all", [[("slice", 0, ("k", None), ("k", None)), ("slice", 0, ("r", "R0"), ("k", None)), ("slice", 0, ("k", None), ("r", "R1")),
+                           ("slice", 0, ("r", "R0"), ("r", "R1")), ("slice", 0, ("r", "R1"), ("r", "R0"))]]))
     F.append(("wait_single", [[("entry", 0, ("k", None))]]))
     return F
 
@@ -482,16 +491,29 @@ def programs(tier, seed):
     # the same array operand text used twice around another literal (aliasing of parsed operands)
     P.append(number_lits([["store", ("r", "R0"), ("entry", 0, ("k", None))], ["add", ("r", "R1"), ("r", "R1"), ("k", None)],
                           ["load", ("r", "R0"), ("entry", 0, ("k", None))]], []))
+    # operands that name a register ONLY inside an array entry / slice, next to a command that needs a scratch register
+    setk = ["set", ("r", "C1"), ("k", None)]
+    for v in allv:
+        inner = [x for s_ in v[1:] if s_[0] in ("entry", "slice") for x in s_[2:] if x[0] == "r"]
+        has_lit = any(s_[0] == "k" or (s_[0] in ("entry", "slice") and any(x[0] == "k" for x in s_[2:])) for s_ in v[1:])
+        if inner and not has_lit:
+            P.append(number_lits(copy.deepcopy([v, setk, ["L", "END"]]), ["END"]))
+            P.append(number_lits(copy.deepcopy([setk, v, ["L", "END"]]), ["END"]))
     # register pressure: the source names many R registers and uses literals
     for nreg in (14, 15, 16):
         cmds = [["set", ("r", f"R{i}"), ("k", None)] for i in range(nreg)] + [["add", ("r", "R0"), ("k", None), ("k", None)], ["ret_reg", ("r", f"R{nreg - 1}")]]
         P.append(number_lits(cmds, []))
     specs = []
-    styles = [{}, {"macro": True}, {"comments": True}, {"args": True}, {"macro": True, "comments": True, "args": True}]
+    styles = [{}, {"macro": True}, {"comments": True}, {"args": True}, {"macro": True, "comments": True, "args": True}, {"macro": "overlap"}]
     for i, cmds in enumerate(P):
         extra = {"steps": (30, 100)} if len(cmds) > 12 else {}
         specs.append(dict({"cmds": cmds, "route": "ir"}, **extra))
         specs.append(dict({"cmds": cmds, "route": "text", "style": styles[i % len(styles)]}, **extra))
+    # two macros with overlapping names on every single command that names two different registers
+    for v in allv:
+        regs = list(dict.fromkeys(s_[1] for s_ in v[1:] if s_[0] == "r"))
+        if len(regs) >= 2:
+            specs.append({"cmds": number_lits(copy.deepcopy([v, ["L", "END"]]), ["END"]), "route": "text", "style": {"macro": "overlap"}})
     # the aliasing program must use identical literal TEXT twice: force equal placeholders by reusing literal 0
     alias = [["store", ("r", "R0"), ("entry", 0, ("k", 0))], ["add", ("r", "R1"), ("r", "R1"), ("k", 1)], ["load", ("r", "R0"), ("entry", 0, ("k", 0))]]
     specs.append({"cmds": alias, "route": "text", "style": {}})
@@ -541,7 +563,7 @@ def main(tier, seed):
                   "forward and backward jumps; register-pressure programs naming 14-16 R registers; an aliasing program; each through the IR route and "
                   "through text with macros / comments / bracketed arguments",
                   "all literal values, initial register and array contents symbolic; step bound 14 (source) / 60 (assembled); straight-line register-pressure programs: 30 / 100"]
-    rep.outside = ["programs longer than 3 commands (plus the register-pressure programs)", "overlapping macro names (str.replace substitution)",
+    rep.outside = ["programs longer than 3 commands (plus the register-pressure programs)", "macro names overlapping in other ways than 'defined-later name is a prefix of an earlier one' (str.replace substitution in definition order)",
                    "quantum gate instructions (they take no literals except the immediates covered by C17)", "token-level lemmas on arbitrary strings (C17 covers printed text)"]
     rep.stubs = ["reference semantics vf/refsem.py on both sides", "text route: literals are printed as placeholder numerals 7000+j and replaced by the symbolic value after parsing"]
     chunks = [specs[i::64] for i in range(64)]
